@@ -2,12 +2,12 @@ package main
 
 import (
 	"fmt"
-	"regexp"
-	"strconv"
 	"go/ast"
 	"go/token"
 	"go/types"
+	"regexp"
 	"sort"
+	"strconv"
 	"strings"
 
 	"golang.org/x/tools/go/packages"
@@ -40,34 +40,35 @@ func (s *State) assume(t Term) {
 
 // Obligation is one SMT query.
 type Obligation struct {
-	Name    string
-	Kind    string
-	Func    string
-	Pos     string
-	Goal    string // human readable
-	SMT     string
-	Expect  string // "unsat" (proof) or "sat" (cover)
-	Result  string
-	Solver  string
-	TimeS   float64
-	Output  string
-	File    string
-	Agree   int
-	AltSMT  string // covers: the state before the step; if that is unsat too the path is dead, not vacuous
+	Name   string
+	Kind   string
+	Func   string
+	Pos    string
+	Goal   string // human readable
+	SMT    string
+	Expect string // "unsat" (proof) or "sat" (cover)
+	Result string
+	Solver string
+	TimeS  float64
+	Output string
+	File   string
+	Agree  int
+	replay *replayInfo
+	AltSMT string // covers: the state before the step; if that is unsat too the path is dead, not vacuous
 }
 
 // frame is one function activation (the verified function or an inlined one).
 type frame struct {
-	fd      *funcDecl
-	info    *types.Info
-	pkg     *packages.Package
-	results []types.Object // result variables (named or synthetic)
-	defers  []func(st *State)
-	rets    []*State // collected return states (inlined frames)
-	top     bool
-	loops   []*loopFrame
+	fd       *funcDecl
+	info     *types.Info
+	pkg      *packages.Package
+	results  []types.Object // result variables (named or synthetic)
+	defers   []func(st *State)
+	rets     []*State // collected return states (inlined frames)
+	top      bool
+	loops    []*loopFrame
 	loopBase int // ordinal of first loop of this body within the enclosing declaration
-	tsubst  map[*types.TypeParam]types.Type
+	tsubst   map[*types.TypeParam]types.Type
 }
 
 type loopFrame struct {
@@ -77,40 +78,41 @@ type loopFrame struct {
 
 // FuncVerifier verifies one function against its contract.
 type FuncVerifier struct {
-	prog   *Prog
-	spec   *FuncSpec
-	fd     *funcDecl
-	u      *Universe
-	obls   []*Obligation
-	frames []*frame
-	entry  *State
-	initHeaps map[string]Term
-	allocs    map[string]Term // per heap: allocated set at entry
-	counters  map[string]int
-	name      string
-	specMode  int // >0: evaluating specification (no obligations, no definitions)
-	termMode  bool
-	oldState  *State
-	pureDefs  map[string]*pureDef
-	pureHeaps *[]heapFormal // heaps used by the pure function being built
-	closures  map[types.Object]*closure
-	assumptions map[string]bool
-	loopOrdinals map[ast.Stmt]int
-	retOrdinal   int
-	quantDepth   int
-	bound        map[types.Object]Term
-	seenStack    []types.Object
-	riStack      []types.Object
-	curCall      *ast.CallExpr
-	pick         func(ast.Expr) ast.Expr
-	clausePick   func(ast.Expr) ast.Expr
-	pendingFresh []Term
-	noAllocAssume bool
-	oldBound     map[types.Object]Term
-	inClauseHere bool
-	heapSorts    map[string]*Sort // heap name -> reference sort
+	prog                                         *Prog
+	spec                                         *FuncSpec
+	fd                                           *funcDecl
+	u                                            *Universe
+	obls                                         []*Obligation
+	frames                                       []*frame
+	entry                                        *State
+	initHeaps                                    map[string]Term
+	allocs                                       map[string]Term // per heap: allocated set at entry
+	counters                                     map[string]int
+	name                                         string
+	specMode                                     int // >0: evaluating specification (no obligations, no definitions)
+	termMode                                     bool
+	oldState                                     *State
+	pureDefs                                     map[string]*pureDef
+	pureHeaps                                    *[]heapFormal // heaps used by the pure function being built
+	closures                                     map[types.Object]*closure
+	assumptions                                  map[string]bool
+	loopOrdinals                                 map[ast.Stmt]int
+	retOrdinal                                   int
+	quantDepth                                   int
+	bound                                        map[types.Object]Term
+	seenStack                                    []types.Object
+	riStack                                      []types.Object
+	curCall                                      *ast.CallExpr
+	pick                                         func(ast.Expr) ast.Expr
+	clausePick                                   func(ast.Expr) ast.Expr
+	pendingFresh                                 []Term
+	noAllocAssume                                bool
+	oldBound                                     map[types.Object]Term
+	curClause                                    *Clause
+	inClauseHere                                 bool
+	heapSorts                                    map[string]*Sort // heap name -> reference sort
 	pureUsed, inlined, trustedUsed, contractUsed map[string]bool
-	allocBudget  func(st *State) Term
+	allocBudget                                  func(st *State) Term
 }
 
 type closure struct {
@@ -129,7 +131,7 @@ type pureDef struct {
 	heaps []heapFormal
 }
 
-func (fv *FuncVerifier) frame() *frame { return fv.frames[len(fv.frames)-1] }
+func (fv *FuncVerifier) frame() *frame     { return fv.frames[len(fv.frames)-1] }
 func (fv *FuncVerifier) info() *types.Info { return fv.frame().info }
 
 func (fv *FuncVerifier) typeOf(e ast.Expr) types.Type {
@@ -310,6 +312,30 @@ func (fv *FuncVerifier) oblige(st *State, kind, label string, goal Term, p token
 		o.Pos = fv.pos(p)
 	}
 	o.SMT = fv.buildQuery(st, not(goal))
+	if fv.fd != nil && fv.spec.Kind != SKLemma && fv.entry != nil && (kind == "post" || strings.HasPrefix(kind, "safe:")) {
+		ri := &replayInfo{fv: fv, kind: kind}
+		if kind == "post" {
+			ri.clause = fv.curClause
+		}
+		sig := fv.fd.fn.Type().(*types.Signature)
+		names := fv.spec.allParams()
+		k := 0
+		add := func(v *types.Var) {
+			n := fmt.Sprintf("a%d", k)
+			if k < len(names) {
+				n = names[k].Name
+			}
+			k++
+			ri.inputs = append(ri.inputs, replayInput{name: n, typ: fv.subst(v.Type()), term: fv.entry.vars[v]})
+		}
+		if sig.Recv() != nil {
+			add(sig.Recv())
+		}
+		for i := 0; i < sig.Params().Len(); i++ {
+			add(sig.Params().At(i))
+		}
+		o.replay = ri
+	}
 	fv.obls = append(fv.obls, o)
 }
 
@@ -985,12 +1011,12 @@ type loopCfg struct {
 	label     string
 	extraMods []types.Object
 	idxVar    types.Object
-	sync      func(*State)       // establish derived variables before invariants are evaluated
-	autoInv   func(*State) Term  // engine-supplied invariant
-	cond      func(*State) Term  // loop guard
-	condSetup func(*State) Term  // alternative guard that may bind per-iteration ghost values
-	exitCond  func(*State) Term  // condition at exit (default: not guard)
-	pre       func(*State)       // start of each iteration
+	sync      func(*State)        // establish derived variables before invariants are evaluated
+	autoInv   func(*State) Term   // engine-supplied invariant
+	cond      func(*State) Term   // loop guard
+	condSetup func(*State) Term   // alternative guard that may bind per-iteration ghost values
+	exitCond  func(*State) Term   // condition at exit (default: not guard)
+	pre       func(*State)        // start of each iteration
 	post      func(*State) *State // end of each iteration
 }
 
